@@ -43,7 +43,7 @@ func (c Case) Text() string {
 var candidates = []string{"z", "m", "a", "b", "c", "x", "y", "n", "f", "k", "e", "err", "more", "r", "acc", "go", "v", "zz", "zz-unbound", "tmp"}
 
 func genCase(t *rapid.T) Case {
-	p := gen.Program(t, gen.PFlags{Cond: true, Try: true, QQ: true, Macros: true, Budget: 50})
+	p := gen.Program(t, gen.PFlags{Cond: true, Try: true, QQ: true, Macros: true, Budget: 50, HotStr: true, FnEq: true})
 	c := Case{Forms: p.Forms}
 	for u := range p.Uses {
 		c.Uses = append(c.Uses, u)
@@ -100,8 +100,14 @@ func check(c Case) pbt.Verdict {
 	}
 	in := refmal.New()
 	o := in.Run(c.Forms)
+	// where the reference interpreter leaves the outcome open (= on functions …) the routes are still
+	// compared with each other: the first route stands in for the definition
+	relative, why := false, o.Aborted
 	if o.Aborted != "" {
-		return pbt.Verdict{Excluded: "model-" + strings.SplitN(o.Aborted, ":", 2)[0], Labels: []string{"excluded:" + o.Aborted}}
+		if !strings.HasPrefix(o.Aborted, "unspecified") {
+			return pbt.Verdict{Excluded: "model-" + strings.SplitN(o.Aborted, ":", 2)[0], Labels: []string{"excluded:" + o.Aborted}}
+		}
+		relative = true
 	}
 	ctx, cancel := context.WithTimeout(context.Background(), 20*time.Second)
 	defer cancel()
@@ -196,6 +202,18 @@ func check(c Case) pbt.Verdict {
 		routes = append(routes, routeResult{name: "R7-load-file", r: r, trace: tr.Snapshot(), env: e, noVal: true})
 	}
 
+	modelTrace := in.Trace
+	if relative {
+		first := routes[0]
+		if first.r.Panicked {
+			return pbt.Failf("panic:"+first.r.PanicSite, "route %s panicked: %v\nprogram:\n%s", first.name, first.r.PanicVal, c.Text())
+		}
+		if hasOpaque(val.From(first.r.Val)) {
+			return pbt.Verdict{Excluded: "model-unspecified", Labels: []string{"excluded:" + why}}
+		}
+		o = box.OutcomeOf(first.r)
+		modelTrace = first.trace
+	}
 	for _, rt := range routes {
 		if rt.r.Panicked {
 			return pbt.Failf("panic:"+rt.r.PanicSite, "route %s panicked: %v\nprogram:\n%s", rt.name, rt.r.PanicVal, c.Text())
@@ -214,8 +232,11 @@ func check(c Case) pbt.Verdict {
 		if sig != "" {
 			return pbt.Failf(rt.name+":"+sig, "route %s: %s\nprogram:\n%s\nfile text:\n%q", rt.name, msg, c.Text(), c.FileText)
 		}
-		if d := box.CompareTrace(in.Trace, rt.trace); d != "" {
+		if d := box.CompareTrace(modelTrace, rt.trace); d != "" {
 			return pbt.Failf(rt.name+":effects-differ", "route %s: %s\nprogram:\n%s\nfile text:\n%q", rt.name, d, c.Text(), c.FileText)
+		}
+		if relative {
+			continue
 		}
 		if d := box.CompareGlobals(in, rt.env, candidates); d != "" {
 			return pbt.Failf(rt.name+":globals-differ", "route %s: %s\nprogram:\n%s", rt.name, d, c.Text())
@@ -229,6 +250,9 @@ func check(c Case) pbt.Verdict {
 		}
 	}
 	v := pbt.Verdict{Key: c.Text() + "\x00" + c.FileText}
+	if relative {
+		v.Labels = append(v.Labels, "relative:"+why)
+	}
 	for _, u := range c.Uses {
 		v.Labels = append(v.Labels, "uses:"+u)
 	}
